@@ -147,7 +147,7 @@ def _analyses():
         "C19": (
             [kt.global_effects, kt.trace_id_uses, kt.new_trace, kc.closure_reuse, kc.backward_pass, kc.zero_paths],
             "History independence: the differentiation path writes exactly one piece of process-global state (A11), which is observed only through order/equality comparisons of ids of "
-            "live boxes and updated only by balanced +-1 (A12.cmp/bal): results are invariant under any shift of ids, so a leaked increment after an exception cannot change them; closures re-usable (A10).",
+            "live boxes and updated only by balanced +-1 (A12.cmp/bal): results are invariant under any shift of ids, so a leaked increment after an exception cannot change them; closures re-usable (A10); no nested function that escapes its factory writes state captured from the factory's scope (A11.state, captured-state clause).",
         ),
         "C20": (
             [thread, kt.new_trace, kt.trace_id_uses],
